@@ -27,7 +27,7 @@ ASSUMPTIONS = [
     "through-file comparison maps values by lasio's documented conversions: numeric literals compared numerically, v1.2 ~Well value/description layout",
 ]
 REQUIRED = ["contract_evaluations_direct", "form_std", "form_ptime", "form_pdescr_colon",
-            "form_noperiod", "form_numunit", "form_lastcolon", "file_items_compared", "hours_seen_24"]
+            "form_noperiod", "form_numunit", "form_lastcolon", "file_items_compared", "file_reads_preceded_by_other_case", "direct_calls_after_file_reads", "hours_seen_24"]
 SOFT_DEADLINE = {"quick": 90, "thorough": 1200}
 LEVEL_TEXT = ("Exploration: each rendered line's parse is checked against the tuple it was rendered from by a post-condition on "
               "the real parser (evaluated on direct and through-file calls); the generators cover the joint space of field "
@@ -294,6 +294,13 @@ def run_case(case, ctx):
         text = "\n".join(text_lines) + "\n"
         _mode[0] = "through_file"
         try:
+            # the same text is first read with the *other* mnemonic_case settings (as any program that uses lasio's
+            # default does): a parse of a line must not depend on earlier parses of the same line
+            lasio.read(text, mnemonic_case="upper" if vers == "2.0" else "lower")
+            ctx.count("file_reads_preceded_by_other_case")
+        except Exception:
+            pass
+        try:
             las = lasio.read(text, mnemonic_case="preserve")
         except Exception as e:
             ctx.violation("file-read-raised:%s" % (sec if sec in ("Version", "Well", "Curves", "Parameter") else "custom"),
@@ -310,6 +317,13 @@ def run_case(case, ctx):
         if len(items) != len(lines_in) or len(section) < len(lines_in):
             ctx.violation("file-item-count", "%d lines placed in %s, section has %d items" % (len(lines_in), title, len(section)), {"text": text})
             continue
+        for s, exp, form in lines_in[:8]:      # and direct parses of the same (stripped) lines after the file reads
+            _mode[0] = "direct"
+            try:
+                reader.read_header_line(s, section_name=sec)
+                ctx.count("direct_calls_after_file_reads")
+            except Exception as e:
+                ctx.violation("parse-raised-after-file-read", "read_header_line(%r, section_name=%r) raised %r after file reads" % (s, sec, e))
         for it, (s, exp, form) in zip(items, lines_in):
             ctx.count("file_items_compared")
             ev, ed = exp["value"], exp["descr"]
